@@ -210,7 +210,12 @@ def ite(c, a, b):
         pl = {}
         for k in set(a.payload) | set(b.payload):
             if k in a.payload and k in b.payload:
-                pl[k] = [ite(c, x, y) for x, y in zip(a.payload[k], b.payload[k])]
+                try:
+                    pl[k] = [ite(c, x, y) for x, y in zip(a.payload[k], b.payload[k])]
+                except Unsupported:
+                    if k != "Err":
+                        raise
+                    pl[k] = [VUnit()]  # error values are opaque (never inspected by the properties)
             else:
                 pl[k] = a.payload.get(k) or b.payload.get(k)
         return VEnum(a.ty, z3.If(c, a.tag, b.tag), pl)
@@ -486,7 +491,10 @@ class Interp:
         raise Unsupported("pattern kind %s" % k)
 
     # ------------------------------------------------------------------ statements
-    def exec_block(self, blk, env, pc):
+    def exec_block(self, blk, env, pc, saved=None):
+        """`saved` (if given) collects outer variables shadowed by a `let` of this block: name -> value
+        the outer variable had when it was shadowed (restored by e_block when the block ends)."""
+        outer = set(env)
         env = dict(env)
         val = VUnit()
         stmts = blk["stmts"]
@@ -495,6 +503,10 @@ class Interp:
                 break
             k = st["k"]
             if k == "let":
+                if saved is not None:
+                    for nm in pat_names(st["pat"]):
+                        if nm in outer and nm not in saved:
+                            saved[nm] = env[nm]
                 if st["init"] is None:
                     for nm in pat_names(st["pat"]):
                         env[nm] = VUninit()
@@ -531,9 +543,11 @@ class Interp:
         return m(e, env, pc)
 
     def e_block(self, e, env, pc):
-        v, env2, pc2 = self.exec_block(e, env, pc)
-        # variables declared inside the block go out of scope; outer ones keep their (possibly updated) values
-        out = {n: env2[n] for n in env if n in env2}
+        saved = {}
+        v, env2, pc2 = self.exec_block(e, env, pc, saved)
+        # variables declared inside the block go out of scope; outer ones keep their (possibly updated)
+        # values, and outer variables that were shadowed inside the block get their own value back
+        out = {n: saved.get(n, env2[n]) for n in env if n in env2}
         return v, out, pc2
 
     def e_lit(self, e, env, pc):
@@ -680,6 +694,13 @@ class Interp:
             vt, envt2, pct = VUnit(), env, z3.BoolVal(False)
         else:
             vt, envt2, pct = self.eval(e["then"], envt, z3.And(pc, c))
+            if binds:
+                envt2 = dict(envt2)
+                for nm in binds:
+                    if nm in env:
+                        envt2[nm] = env[nm]  # the pattern binding shadowed an outer variable
+                    else:
+                        envt2.pop(nm, None)
         if e["else"] is not None and not z3.is_true(c):
             vf, envf, pcf = self.eval(e["else"], env, z3.And(pc, z3.Not(c)))
         else:
@@ -728,6 +749,13 @@ class Interp:
             if z3.is_false(sel):
                 continue
             v, enva2, pca = self.eval(a["body"], enva, z3.And(pc, sel))
+            if binds:
+                enva2 = dict(enva2)
+                for nm in binds:
+                    if nm in env:
+                        enva2[nm] = env[nm]
+                    else:
+                        enva2.pop(nm, None)
             arms.append((sel, v, enva2, pca))
         if not arms:
             raise Unsupported("match without feasible arm")
@@ -981,15 +1009,15 @@ class Interp:
                 return self.call(p, args, pc), env, pc
             if p.startswith("Self::") and self.self_ty and self.self_ty[-1] and (self.self_ty[-1] + "::" + last) in self.fns:
                 return self.call(self.self_ty[-1] + "::" + last, args, pc), env, pc
-            if "::" in p and last in self.fns and not last[:1].isupper():
-                return self.call(last, args, pc), env, pc
-            if ("Self::" in p or "::" in p) and any(k.endswith("::" + last) for k in self.fns):
-                cands = [k for k in self.fns if k.endswith("::" + last) and not k.startswith("<")]
-                if len(cands) == 1:
-                    return self.call(cands[0], args, pc), env, pc
-            m = LIB_FUNCS.get(p) or LIB_FUNCS.get(last if "::" in p else None)
+            two = "::".join(p.split("::")[-2:])
+            if two in self.fns:
+                return self.call(two, args, pc), env, pc
+            m = LIB_FUNCS.get(p) or LIB_FUNCS.get(two)
             if m is not None:
                 return m(self, args, pc), env, pc
+            if "::" in p and last in self.fns and not last[:1].isupper() and not p.split("::")[-2][:1].isupper():
+                # module-qualified free function, e.g. jumbf::labels::to_normalized_uri
+                return self.call(last, args, pc), env, pc
             if "::" in p and last[:1].isupper():
                 ty = p.split("::")[-2]
                 return VEnum(ty, TAG(ty, last), {last: args}), env, pc
@@ -1186,6 +1214,14 @@ def m_strip_suffix(I, s, args, pc, e):
     return opt(bstr.suffixof(p, s.e), VStr(bstr.substr(s.e, bv(0), s.e.n - p.n)))
 
 
+def m_replace(I, s, args, pc, e):
+    """str::replace for a one-byte pattern and a one-byte replacement (a per-byte map)"""
+    a, b = as_bstr(args[0]), as_bstr(args[1])
+    if cval(a.n) != 1 or cval(b.n) != 1:
+        raise Unsupported("str::replace with patterns longer than one byte")
+    return VStr(BStr([z3.If(c == a.b[0], b.b[0], c) for c in s.e.b], s.e.n))
+
+
 def m_ident(I, s, args, pc, e):
     return s
 
@@ -1341,6 +1377,30 @@ def m_opt_ok_or_else(I, o, args, pc, e):
                  {"Ok": pl if pl is not None else [VUninit()], "Err": [VUnit()]})
 
 
+def _apply_fn_value(I, f, arg, pc):
+    """apply a closure, or a function named by a path expression (evaluated as a unit 'variant')"""
+    if isinstance(f, VClosure):
+        return I.call_closure(f, [arg], pc)
+    if isinstance(f, VEnum) and not f.payload:
+        names = [k[1] for k, val in _TAGS.items() if k[0] == f.ty and z3.is_bv_value(f.tag) and val == f.tag.as_long()]
+        if names:
+            key = "%s::%s" % (f.ty, names[0])
+            if key in I.overrides:
+                I.models_used.add("stub:" + key)
+                return I.overrides[key](I, [arg], pc)
+            if key in I.fns:
+                return I.call(key, [arg], pc)
+    raise Unsupported("function value not understood")
+
+
+def m_res_map(I, r, args, pc, e):
+    pl = r.payload.get("Ok")
+    if pl is None or z3.is_false(z3.simplify(z3.And(pc, is_ok(r)))):
+        return VEnum("Result", r.tag, {"Err": r.payload.get("Err", [VUnit()])})
+    v = _apply_fn_value(I, args[0], pl[0], z3.And(pc, is_ok(r)))
+    return VEnum("Result", r.tag, {"Ok": [v], "Err": r.payload.get("Err", [VUnit()])})
+
+
 def m_res_ok(I, r, args, pc, e):
     pl = r.payload.get("Ok")
     return VEnum("Option", z3.If(is_ok(r), TAG("Option", "Some"), TAG("Option", "None")), {"Some": pl} if pl is not None else {})
@@ -1387,6 +1447,8 @@ METHODS = {
     ("VRsplitHead", "next"): lambda I, s, a, pc, e: some(s.last),
     ("VCount", "count"): lambda I, s, a, pc, e: VInt(s.n),
     ("VStr", "len"): m_len_str,
+    ("VStr", "to_str"): lambda I, s, a, pc, e: some(s),
+    ("VStr", "replace"): m_replace,
     ("VStr", "to_string"): m_ident,
     ("VStr", "to_owned"): m_ident,
     ("VStr", "as_str"): m_ident,
@@ -1425,6 +1487,7 @@ METHODS = {
     ("Option", "clone"): m_ident,
     ("Option", "ok_or_else"): m_opt_ok_or_else,
     ("Option", "ok_or"): m_opt_ok_or_else,
+    ("Result", "map"): m_res_map,
     ("Result", "ok"): m_res_ok,
     ("Result", "map_err"): lambda I, r, a, pc, e: VEnum("Result", r.tag, {"Ok": r.payload.get("Ok", [VUninit()]), "Err": [VUnit()]}),
     ("Result", "is_ok"): m_res_is_ok,
